@@ -604,8 +604,15 @@ fn exp_multiset(st: &mut St, inputs: &[(f64, u64)], obs: &mut Vec<Observation>, 
 fn sm_multiset(st: &mut St, inputs: &[(f64, u64)], obs: &mut Vec<Observation>, origs: &mut Vec<(Orig, u64)>) {
     st.multisets += 1;
     let encodings: &[bool] = if inputs.iter().any(|(_, c)| *c > 1) { &[false, true] } else { &[false] };
-    for &repeat_adds in encodings {
+    // (arrival order: as given - ascending for the enumerated multisets - and reversed)
+    for (&repeat_adds, reversed) in encodings.iter().flat_map(|e| [(e, false), (e, true)]) {
+        if reversed && inputs.len() < 2 {
+            continue;
+        }
         feed(inputs, repeat_adds, obs, origs);
+        if reversed {
+            obs.reverse();
+        }
         // what was recorded: a Repeated observation records its mean `occurrences` times
         let mut rec: Vec<(f64, u64)> = obs
             .iter()
@@ -631,6 +638,10 @@ fn sm_multiset(st: &mut St, inputs: &[(f64, u64)], obs: &mut Vec<Observation>, o
         }
         let (s, s2) = run_hist::<Observation, SortAndMerge>(obs);
         st.evals += 1;
+        // -0.0 and +0.0 are equal values: merged into one entry whose sign is that of whichever
+        // arrived first (not determined by the statement); compared as +0.0
+        let unsigned_zero = |o: &[Out]| -> Vec<Out> { o.iter().map(|x| Out { total: if x.total == 0.0 { 0.0 } else { x.total }, occ: x.occ }).collect() };
+        let (s, s2, want_outs) = (unsigned_zero(&s), unsigned_zero(&s2), unsigned_zero(&want_outs));
         if !same(&s, &want_outs) {
             let got_n: u128 = s.iter().map(|o| o.occ as u128).sum();
             let want_n: u128 = want.iter().map(|x| x.1 as u128).sum();
@@ -645,6 +656,7 @@ fn sm_multiset(st: &mut St, inputs: &[(f64, u64)], obs: &mut Vec<Observation>, o
                 "sort-merge:values"
             };
             let mut r = multiset_json(inputs, repeat_adds);
+            r["arrival_order"] = json!(if reversed { "reversed (descending)" } else { "as listed" });
             r["closed_distribution"] = outs_json(&s);
             r["expected"] = outs_json(&want_outs);
             st.v.add(key, "sort-and-merge does not report exactly the recorded values, ascending, equal values merged", r);
@@ -664,6 +676,7 @@ fn sm_multiset(st: &mut St, inputs: &[(f64, u64)], obs: &mut Vec<Observation>, o
         };
         if !identity {
             let mut r = multiset_json(inputs, repeat_adds);
+            r["arrival_order"] = json!(if reversed { "reversed (descending)" } else { "as listed" });
             r["closed"] = outs_json(&s);
             r["reaggregated"] = outs_json(&s2);
             st.v.add("reaggregate:not-identity:sort-and-merge", "re-aggregating a closed sort-and-merge histogram changes counts or reported values", r);
